@@ -12,7 +12,7 @@
    The id is derived from (namespace, counter value) by UUIDv5, which is not
    modelled: uniqueness of the ids is uniqueness of the counter values.
    Side condition: the counter does not pass 2^64 during the run. *)
-From PL Require Import Spec.ConcSpec Spec.ConcExample Proofs.OrderProofs Proofs.ConcGen.
+From PL Require Import Spec.ConcSpec Spec.ConcExample Proofs.OrderProofs Proofs.ConcGen Proofs.ConcGen2.
 Local Open Scope N_scope.
 
 Theorem C14_sequence :
@@ -59,6 +59,56 @@ Theorem C14_source :
       old = sh_gen (cf_sh c) /\ gen_source (th_pc t) p' old.
 Proof. exact cstep_gen_source. Qed.
 
+(* ---- runs compose: "... or will return" --------------------------------------------------
+   After any run the counter stands at start + number of ids drawn (C14_counter_after), so a
+   continuation of the run — any further program steps, any schedule — draws ids that no
+   earlier call received (C14_never_again), and both segments together are one gap-free
+   sequence (C14_compose).  Side condition as above: no wrap at 2^64. *)
+Theorem C14_counter_after :
+  forall mf sched c,
+    let n := length (gen_olds (snd (exec mf sched c))) in
+    sh_gen (cf_sh c) + N.of_nat n < W ->
+    sh_gen (cf_sh (fst (exec mf sched c))) = sh_gen (cf_sh c) + N.of_nat n.
+Proof. exact exec_gen_final. Qed.
+
+Theorem C14_never_again :
+  forall mf sched sched2 c,
+    let r1 := exec mf sched c in
+    let olds1 := gen_olds (snd r1) in
+    let olds2 := gen_olds (snd (exec mf sched2 (fst r1))) in
+    sh_gen (cf_sh c) + N.of_nat (length olds1) + N.of_nat (length olds2) <= W ->
+    sh_gen (cf_sh c) + N.of_nat (length olds1) < W ->
+    forall x, In x olds1 -> In x olds2 -> False.
+Proof. exact exec_gen_never_again. Qed.
+
+Theorem C14_compose :
+  forall mf sched sched2 c,
+    let r1 := exec mf sched c in
+    let olds1 := gen_olds (snd r1) in
+    let olds2 := gen_olds (snd (exec mf sched2 (fst r1))) in
+    sh_gen (cf_sh c) + N.of_nat (length olds1) + N.of_nat (length olds2) <= W ->
+    sh_gen (cf_sh c) + N.of_nat (length olds1) < W ->
+    olds1 ++ olds2 = Nseq (sh_gen (cf_sh c)) (length olds1 + length olds2).
+Proof. exact exec_gen_compose. Qed.
+
+(* replay of a shorter run: its ids are a prefix of the longer run's ids *)
+Theorem C14_replay_prefix :
+  forall mf mf' sched c sched' c',
+    let olds := gen_olds (snd (exec mf sched c)) in
+    let olds' := gen_olds (snd (exec mf' sched' c')) in
+    sh_gen (cf_sh c) = sh_gen (cf_sh c') -> (length olds <= length olds')%nat ->
+    sh_gen (cf_sh c') + N.of_nat (length olds') <= W ->
+    olds = firstn (length olds) olds'.
+Proof. exact exec_gen_prefix. Qed.
+
+(* non-vacuity: the example run continued by a second copy of its schedule draws nothing
+   (all threads are Done), and its counter is start + 5 *)
+Example C14_example_after :
+  let run := exec match_against ex_sched ex_c0 in
+  sh_gen (cf_sh (fst run)) = sh_gen (cf_sh ex_c0) + 5 /\
+  sh_gen (cf_sh ex_c0) + 5 < W.
+Proof. vm_compute. split; reflexivity. Qed.
+
 (* ---- non-vacuity: two threads draw ids for three transactions and two CNext calls ---- *)
 Example C14_example :
   let run := exec match_against ex_sched ex_c0 in
@@ -77,10 +127,22 @@ Check C14_unique : forall mf sched c,
     sh_gen (cf_sh c) + N.of_nat (length olds) <= W ->
     NoDup olds /\
     forall k, (k < length olds)%nat -> nth_error olds k = Some (sh_gen (cf_sh c) + N.of_nat k).
+Check C14_never_again : forall mf sched sched2 c,
+    let r1 := exec mf sched c in
+    let olds1 := gen_olds (snd r1) in
+    let olds2 := gen_olds (snd (exec mf sched2 (fst r1))) in
+    sh_gen (cf_sh c) + N.of_nat (length olds1) + N.of_nat (length olds2) <= W ->
+    sh_gen (cf_sh c) + N.of_nat (length olds1) < W ->
+    forall x, In x olds1 -> In x olds2 -> False.
 
 Print Assumptions C14_sequence.
 Print Assumptions C14_unique.
 Print Assumptions C14_reproducible.
 Print Assumptions C14_step.
 Print Assumptions C14_source.
+Print Assumptions C14_counter_after.
+Print Assumptions C14_never_again.
+Print Assumptions C14_compose.
+Print Assumptions C14_replay_prefix.
 Print Assumptions C14_example.
+Print Assumptions C14_example_after.
